@@ -60,6 +60,8 @@ def lean_stage(pid):
                 res["broken"].append(f"translator cross-check: {msg}"[:200])
         for msg in ((res["regenerated"] or {}).get("cropfull") or {}).get("cropfull_problems") or []:
             res["broken"].append(f"translator cross-check: {msg}"[:200])
+        for msg in ((res["regenerated"] or {}).get("rundefaults") or {}).get("rundefaults_problems") or []:
+            res["broken"].append(f"translator cross-check: {msg}"[:200])
     except Exception as e:  # noqa: BLE001
         res["regenerated"] = f"translator failed: {type(e).__name__}: {e}"
         res["broken"].append("translator: " + str(res["regenerated"])[:200])
